@@ -356,15 +356,15 @@ func (a *c13) summaryNonNilWhen(callee *ssa.Function, idx, okIdx, depth int) boo
 	nret := 0
 	for _, b := range callee.Blocks {
 		for _, in := range b.Instrs {
-			ret, ok := in.(*ssa.Return)
+			ret, ok := core.AsReturn(in)
 			if !ok || idx >= len(ret.Results) {
 				continue
 			}
 			nret++
-			if okIdx >= 0 && !mayBe(ret.Results[okIdx], true) {
+			if okIdx >= 0 && !mayBe(core.Res(ret, okIdx), true) {
 				continue
 			}
-			if ok, _ := a.nonNil(ret.Results[idx], in, depth-1); !ok {
+			if ok, _ := a.nonNil(core.Res(ret, idx), in, depth-1); !ok {
 				res = false
 			}
 		}
@@ -734,15 +734,15 @@ func (a *c13) migrateReturns() {
 	n := 0
 	for _, b := range fn.Blocks {
 		for _, in := range b.Instrs {
-			ret, ok := in.(*ssa.Return)
+			ret, ok := core.AsReturn(in)
 			if !ok || len(ret.Results) != 3 {
 				continue
 			}
 			n++
 			key := fmt.Sprintf("Migrate-return#%d", n)
-			errV := core.ResolveLocalLoad(ret.Results[2])
-			bodyV := core.ResolveLocalLoad(ret.Results[0])
-			upV := core.ResolveLocalLoad(ret.Results[1])
+			errV := core.ResolveLocalLoad(core.Res(ret, 2))
+			bodyV := core.ResolveLocalLoad(core.Res(ret, 0))
+			upV := core.ResolveLocalLoad(core.Res(ret, 1))
 			if core.IsNilConst(errV) {
 				// success or no-op return
 				if bodyV == ssa.Value(body) {
@@ -806,8 +806,8 @@ func (a *c13) migrateReturns() {
 			starts = append(starts, core.Point{Block: e.From.Succs[e.Succ], Idx: 0})
 		}
 		found, _, _ := core.Reach(core.Query{From: starts, Target: func(in ssa.Instruction) bool {
-			ret, ok := in.(*ssa.Return)
-			return ok && len(ret.Results) == 1 && core.IsNilConst(ret.Results[0])
+			ret, ok := core.AsReturn(in)
+			return ok && len(ret.Results) == 1 && core.IsNilConst(core.Res(ret, 0))
 		}})
 		return found
 	}
@@ -938,12 +938,12 @@ func (a *c13) table() {
 		found, tr, _ := core.Reach(core.Query{
 			From: []core.Point{core.Entry(f)},
 			Target: func(in ssa.Instruction) bool {
-				ret, ok := in.(*ssa.Return)
+				ret, ok := core.AsReturn(in)
 				if !ok || len(ret.Results) != 1 {
 					return false
 				}
 				// returns that may be nil error
-				return mayBeNilErr(ret.Results[0])
+				return mayBeNilErr(core.Res(ret, 0))
 			},
 			Avoid: isStamp,
 		})
@@ -1281,7 +1281,7 @@ func (a *c13) loopsProcessAll() {
 				if b == h || !h.Dominates(b) {
 					continue
 				}
-				ret, ok := b.Instrs[len(b.Instrs)-1].(*ssa.Return)
+				ret, ok := core.AsReturn(b.Instrs[len(b.Instrs)-1])
 				if !ok || len(ret.Results) != 1 {
 					continue
 				}
@@ -1299,7 +1299,7 @@ func (a *c13) loopsProcessAll() {
 					continue
 				}
 				nilRet := false
-				for _, l := range core.FlattenPhi(core.ResolveCellLoad(ret.Results[0])) {
+				for _, l := range core.FlattenPhi(core.ResolveCellLoad(core.Res(ret, 0))) {
 					if core.IsNilConst(l) {
 						nilRet = true
 					}
